@@ -684,4 +684,38 @@ theorem cycle_tests_pass (g : Graph) (hkeys : g.keys.Nodup) (comps : List (List 
       obtain ⟨m, e, r⟩ := (sc c y hcc hy).head_of_ne (Ne.symm hyc)
       exact absurd (r.trans (sc y c hy hcc)) (hacyc c m hk e)
 
+/-- what `find_compilation_order` returning an order means: it is `tarjan`'s
+components flattened, and both cycle tests have passed -/
+theorem order_inv (g : Graph) (o : List Nat) (ho : findCompilationOrder g = .ok (.order o)) :
+    ∃ comps, tarjan g = .ok comps ∧ o = comps.flatten ∧ NoConstCycle g comps := by
+  have hs : selfEdge g g.edges = none := by
+    cases h : selfEdge g g.edges with
+    | none => rfl
+    | some c => simp [findCompilationOrder, h] at ho
+  obtain ⟨comps, ht⟩ := tarjan_total' g
+  have hm : mixedComponent g comps = none := by
+    cases h : mixedComponent g comps with
+    | none => rfl
+    | some c => simp [findCompilationOrder, hs, ht, h, bind, Except.bind] at ho
+  have hoc : o = comps.flatten := by
+    simp only [findCompilationOrder, hs, ht, hm, bind, Except.bind] at ho
+    cases hcc : contextCheck g with
+    | error e => simp [hcc] at ho
+    | ok r =>
+      cases r with
+      | some c => simp [hcc] at ho
+      | none => simp [hcc] at ho; exact ho.symm
+  refine ⟨comps, ht, hoc, ?_, ?_⟩
+  · intro c hk e
+    obtain ⟨rs, hmem, hrs⟩ := edge_mem_edges e
+    obtain ⟨c', _, h'⟩ := selfEdge_some g g.edges c rs hmem hk hrs
+    rw [hs] at h'; cases h'
+  · intro comp hcomp c hcc hk
+    by_cases hl : comp.length > 1
+    · obtain ⟨c', _, h'⟩ := mixedComponent_some g comps comp hcomp hl c hcc hk
+      rw [hm] at h'; cases h'
+    · match comp, hcc, hl with
+      | [x], hcc, _ => simp at hcc; rw [hcc]
+      | _ :: _ :: _, _, hl => simp at hl
+
 end RotoV.Tarjan
